@@ -1,6 +1,6 @@
 (** C04 -- Variables are block scoped: declare, shadow, assign, expire. *)
 From Pakhi Require Import Base Float64 Syntax Tables Lexer Interp.
-From Pakhi.Proofs Require Import Assoc Scope.
+From Pakhi.Proofs Require Import FrameInv LoopIter Assoc Scope.
 
 Theorem C04_declare_visible : forall x v ss ss', declare x v ss = Ok ss' -> lookup_var x ss' = Some v.
 Proof. exact declare_lookup_same. Qed.
@@ -57,6 +57,18 @@ Theorem C04_declaration_without_initialiser_is_nil : forall code fuel m x xp p,
              tl (m_scopes m') = tl (m_scopes m) /\ m_heap m' = m_heap m /\ m_out m' = m_out m.
 Proof. exact interp_declare_nil. Qed.
 Print Assumptions C04_declaration_without_initialiser_is_nil.
+
+(* each loop iteration starts with a fresh body scope: under the frame invariant (which holds inside every function body and
+   at every top-level boundary, C03) a continue -- the closing one or one taken anywhere in the body -- and the statement after
+   it leave a NEW EMPTY scope on top of exactly the scopes that were open when the loop was entered *)
+Theorem C04_each_iteration_starts_with_a_fresh_scope : forall code F fuel m p l ls, frame_static code F -> finv code F m ->
+  stmt_at code (m_pc m) = Some (FContinue p) -> m_loops m = l :: ls -> m_loop_base m < length (m_loops m) ->
+  exists m1, interp code (S fuel) m = Ok m1 /\
+             interp code (S fuel) m1 = Ok (next (set_scopes m1 ([] :: m_scopes m1))) /\
+             m_scopes m1 = truncate (l_depth l) (m_scopes m) /\ length (m_scopes m1) = l_depth l /\
+             m_pc m1 = l_start l /\ m_loops m1 = m_loops m.
+Proof. exact continue_then_fresh_scope. Qed.
+Print Assumptions C04_each_iteration_starts_with_a_fresh_scope.
 
 (* a block (and so every loop iteration, whose body is a block) starts with an empty scope and discards it at the end *)
 Theorem C04_block_opens_fresh_scope : forall code fuel m p, stmt_at code (m_pc m) = Some (FBlockStart p) ->
